@@ -147,9 +147,18 @@ where
 /// delegation target is read off the result).
 #[derive(Clone, Copy, Debug)]
 pub struct Marker(pub usize);
+thread_local! {
+    /// the markers that were asked to select since the last `take_marker_calls` (C13: a combination
+    /// delegates each selection to exactly one member)
+    static MARKER_CALLS: std::cell::RefCell<Vec<usize>> = const { std::cell::RefCell::new(Vec::new()) };
+}
+pub fn take_marker_calls() -> Vec<usize> {
+    MARKER_CALLS.with(|c| std::mem::take(&mut *c.borrow_mut()))
+}
 impl Selector<Pop> for Marker {
     type Error = EmptyPopulation;
     fn select<'pop, R: rand::Rng + ?Sized>(&self, population: &'pop Pop, _: &mut R) -> Result<&'pop Ind, Self::Error> {
+        MARKER_CALLS.with(|c| c.borrow_mut().push(self.0));
         population.get(self.0).ok_or(EmptyPopulation)
     }
 }
